@@ -284,6 +284,9 @@ class Gen:
         if c == "print":
             a, _ = self.expr(INT, scope, d - 1)
             self.use("builtin:print")
+            if self.ch(0.1):
+                self.use("pipe:builtin")
+                return ["builtin", "print", [a], "pipe"], "T"
             return ["builtin", "print", [a]], "T"
         if c == "cond":
             cnd = self.e_cond(scope, d - 1)
@@ -357,30 +360,31 @@ class Gen:
         return e if e[0] == "seq" else ["seq", [["e", e]]]
 
     def small_lit(self):
-        """a literal bound of a range: small, sometimes negative"""
+        """a literal bound of a range: small (loops over ranges nest, so lengths stay near those of the arrays and counter
+        loops: at most 8, about 3 on average), sometimes negative"""
         r = self.r
         if self.ch(0.85):
-            return ["int", r.range(0, 6)]
-        v = r.choice([-1, -2, -3, 7, 9])
+            return ["int", r.range(0, 3)]
+        v = r.choice([-1, -2, 4, 5])
         return ["int", v] if v >= 0 else ["un", "neg", ["int", -v]]
 
     def small(self, scope, d, alias_ok=True):
         """an int expression whose value is small (loops over ranges must stay short).  A bare name makes the
-        range ALIAS that cell: allowed for constants, array extents and reserved counters everywhere, for
-        assignable variables only where `alias_ok` (the `from` bound: it is read once)"""
+        range ALIAS that cell: only constants with a small initialiser and reserved counters (an assignable variable may
+        hold anything by the time the range is used; `forin_moving_bound` covers a bound assigned during the loop)"""
         r = self.r
         c = r.weighted([("lit", 55), ("name", 20), ("mask", 15), ("arith", 10)])
         if c == "name":
-            vs = [v for v in self.vars_of(scope, INT) if v.get("small") and (alias_ok or v["ck"] == "C" or v.get("reserved"))]
+            vs = [v for v in self.vars_of(scope, INT) if v.get("small") and (v["ck"] == "C" or v.get("reserved"))]
             if vs:
                 self.use("range:bound-aliases-cell")
                 return ["var", r.choice(vs)["name"]]
         if c == "mask" and d > 0:
             e, _ = self.expr(INT, scope, min(d - 1, 1))
             self.use("range:bound-computed")
-            return ["bin", "band", e, ["int", r.choice([3, 7])]]
+            return ["bin", "band", e, ["int", 3]]
         if c == "arith":
-            return ["bin", r.choice(["add", "sub"]), self.small_lit(), ["int", r.range(0, 3)]]
+            return ["bin", r.choice(["add", "sub"]), self.small_lit(), ["int", r.range(0, 2)]]
         return self.small_lit()
 
     def pos_expr(self, scope, d):
@@ -885,7 +889,10 @@ class Gen:
             if kind == "var" and (ck == "C" or ty[0] == "func"):
                 kind = "let"
             name = self.pick_name(scope)
-            scope.add(name, ty, "V" if kind == "var" else "C", small=(ty == INT and self.is_small(e)))
+            # `var y = i` binds y to the very cell of i: an alias of a loop counter must stay as untouchable as the counter
+            alias_of_reserved = e[0] == "var" and self.reserved(scope, e[1])
+            scope.add(name, ty, "V" if kind == "var" else "C", small=(ty == INT and kind == "let" and self.is_small(e)),
+                      reserved=alias_of_reserved)
             self.use("bind:" + kind)
             return [["let" if kind == "let" else "varb", name, e]]
         if c == "assign":
@@ -924,11 +931,11 @@ class Gen:
         """syntactically small int (a literal below 10 or masked): its name may be used directly as a range bound.
         Only `let` bindings keep the value; a `var` may be assigned anything later, so only the `from` bound may alias it."""
         if e[0] == "int":
-            return -10 < e[1] < 10
+            return -4 < e[1] < 6
         if e[0] == "un" and e[1] == "neg" and e[2][0] == "int":
-            return e[2][1] < 10
+            return e[2][1] < 4
         if e[0] == "bin" and e[1] == "band" and e[3][0] == "int":
-            return 0 <= e[3][1] < 10
+            return 0 <= e[3][1] < 6
         return False
 
     def observe(self, scope):
@@ -1048,7 +1055,7 @@ class Gen:
         self.use("forin:to-bound-assigned-in-body")
         k = self.counter_name()
         outer = Scope(scope)
-        n = r.range(2, 6)
+        n = r.range(2, 4)
         up = self.ch(0.5)
         outer.add(k, INT, "V", reserved=True, small=True)
         inner = Scope(outer)
@@ -1077,6 +1084,19 @@ class Gen:
         self.use("call")
         if f.get("closure"):
             self.use("call:closure-var")
+        ps = f["ty"][1]
+        if not f.get("decl") and args and ps[0]["ty"] == INT and ps[0].get("mut") != "var":
+            # a function VALUE (parameter, `let v = h3`) may be a recursive function: like the direct calls that
+            # clamp_first_args() bounds after generation, it gets a small first argument
+            args[0] = ["bin", "band", args[0], ["int", 3]]
+        if args and ps[0].get("mut") != "var" and self.ch(0.18):
+            # `x |> f(rest)` = `f(x, rest)`; a tuple on the left is unpacked into the leading parameters
+            simple = lambda t: t in (INT, FLOAT, BOOL, STRING, CHAR, LONG, DOUBLE)
+            if len(args) >= 2 and ps[1].get("mut") != "var" and simple(ps[0]["ty"]) and simple(ps[1]["ty"]) and self.ch(0.4):
+                self.use("pipe:tuple")
+                return ["pipe", ["tuple", [args[0], args[1]], [ps[0]["ty"], ps[1]["ty"]]], ["var", f["name"]], args[2:]]
+            self.use("pipe")
+            return ["pipe", args[0], ["var", f["name"]], args[1:]]
         return ["call", ["var", f["name"]], args]
 
     def args_for(self, fty, scope, d):
@@ -1124,7 +1144,7 @@ class Gen:
         # termination, body i may call only group members j < i (and itself, guarded)
         entries = []
         for name, sig in zip(names, sigs):
-            entries.append(scope.add(name, sig, "C", hidden=True))
+            entries.append(scope.add(name, sig, "C", hidden=True, decl=True))
         fs = []
         for i, (name, sig) in enumerate(zip(names, sigs)):
             f = self.func_decl(name, sig, scope, d - 1, allow_rec=True, self_entry=entries[i])
@@ -1153,7 +1173,7 @@ class Gen:
         fid = self.fresh_id()
         fscope = Scope(scope, func_boundary=True)
         if name:
-            fscope.add(name, fty, "C", hidden=True, reserved=True)   # the function's own entry in its own table
+            fscope.add(name, fty, "C", hidden=True, reserved=True, decl=True)   # the function's own entry in its own table
         params = []
         rec = allow_rec and name and fty[1] and fty[1][0]["ty"] == INT and fty[1][0].get("mut") != "var" and self.ch(self.k["recursion"]) \
             and fty[2] in (INT, FLOAT)
@@ -1262,7 +1282,7 @@ class Gen:
         funcs = []
         for nm in names:
             sig = self.pick_sig()
-            ent = top.add(nm, sig, "C", hidden=True)
+            ent = top.add(nm, sig, "C", hidden=True, decl=True)
             f = self.func_decl(nm, sig, top, self.k["nesting"], allow_rec=True)
             ent["hidden"] = False
             # a recursive function is called from outside with a small literal first argument only
@@ -1305,6 +1325,12 @@ def clamp_first_args(prog, rec_names):
             return
         if isinstance(e, list) and e[0] == "call" and e[1][0] == "var" and e[1][1] in rec_names and e[1][1] not in inside and e[2]:
             e[2][0] = ["bin", "band", e[2][0], ["int", 3]]
+        if isinstance(e, list) and e[0] == "pipe" and e[2][0] == "var" and e[2][1] in rec_names and e[2][1] not in inside:
+            # `x |> f(…)`: x (or the first component of a piped tuple) is f's first argument
+            if e[1][0] == "tuple":
+                e[1][1][0] = ["bin", "band", e[1][1][0], ["int", 3]]
+            else:
+                e[1] = ["bin", "band", e[1], ["int", 3]]
         for x in e:
             if isinstance(x, (list, dict, tuple)):
                 walk(x, inside)
@@ -1435,7 +1461,7 @@ def rn_expr(nu, bs, e):
     if t == "call":
         return ["call", R(e[1]), [R(a) for a in e[2]]]
     if t == "builtin":
-        return ["builtin", e[1], [R(a) for a in e[2]]]
+        return ["builtin", e[1], [R(a) for a in e[2]]] + list(e[3:])
     if t == "lam":
         f = e[1]
         return ["lam", rn_func(nu, bs + [f["name"]] if f["name"] else bs, f)]
@@ -1457,6 +1483,8 @@ def rn_expr(nu, bs, e):
         return ["match", R(e[1]), [rn_guard(nu, bs, g) for g in e[2]]]
     if t == "iflet":
         return ["iflet", rn_guard(nu, bs, e[1]), R(e[2]), None if e[3] is None else R(e[3])]
+    if t == "pipe":
+        return ["pipe", R(e[1]), R(e[2]), [R(a) for a in e[3]]]
     if t == "range":
         return ["range", [R(a) for a in e[1]]]
     if t == "slice":
